@@ -1,6 +1,6 @@
 (** C09 - Socket.IO encoding round-trips, matches the v5 format, leaves its input intact.
     This file holds statements only; every proof is `exact <lemma>`. *)
-From SioV Require Import Base.GoSem Sio.Json Sio.JsonProofs Sio.Header Sio.HeaderProofs Sio.Binary Sio.BinaryProofs Sio.Codec Sio.CodecProofs Sio.RoundtripProofs Sio.ReconProofs.
+From SioV Require Import Base.GoSem Sio.Json Sio.JsonProofs Sio.Header Sio.HeaderProofs Sio.Binary Sio.BinaryProofs Sio.Codec Sio.CodecProofs Sio.RoundtripProofs Sio.ReconProofs Sio.DecodeProofs.
 
 (** Encode hands back the value it was given exactly as it was (every cell deconstruct overwrote
     with a placeholder is restored), for every JSON library, value tree of any depth, header and
@@ -125,3 +125,31 @@ Theorem C09_reconstruct_any_refuted :
     exists j, to_jv jparse (cur m) = Ok j /\
               recon jprint (Some bs) TAny j <> Ok (view_ty TAny (shape v)).
 Proof. exact reconstruct_any_refuted. Qed.
+
+(** decode after encode, EVENT packets with binary attachments, parametric in the JSON library:
+    H1 it reads back what it wrote, H2 the pre-scan cuts the event name's literal out of the text
+    of an array that starts with that string, H3 the text of an array starts with an opening bracket.  For every
+    header (type EVENT, any namespace / ack id accepted by [header_ok]), value tree of any depth,
+    handler types fitting the arguments: the frames are header+JSON followed by the binary leaves;
+    fed one by one to a fresh decoder, [finish] is called exactly once, at the last frame, with the
+    header (type BINARY_EVENT, same namespace and id, attachment count = number of leaves), the
+    event name, and buffers from which [decode] returns the arguments (each as its handler type
+    shows it), every attachment in its place. *)
+Theorem C09_decode_encode :
+  forall (marshal : jv -> bytes) (unmarshal : bytes -> option jv) (max_att : Z),
+  (forall j, unmarshal (marshal j) = Some j) ->
+  (forall name rest, exists tmp, prescan (marshal (JArr (JStr name :: rest))) = Ok tmp /\
+                                 unmarshal tmp = Some (JArr [JStr name])) ->
+  (forall l, exists r, marshal (JArr l) = 91%N :: r) ->
+  forall h x e tys name sargs,
+  wfv x = true -> h_type h = 2%N -> hb 2 x = true ->
+  shape x = BArr (BStr name :: sargs) -> args_ok tys sargs = true ->
+  header_ok (e_header e) ->
+  encode marshal unmarshal max_att h (Some x) = Ok e ->
+  exists p atts,
+    e_frames e = (encode_header (e_header e) ++ p) :: atts /\
+    atts = leaves (shape x) /\
+    e_header e = mkHeader 5 (h_nsp h) (h_id h) (Z.of_nat (length atts)) /\
+    feed unmarshal None 0 (e_frames e) = Ok ([(length atts, (e_header e, name, p :: atts))], None) /\
+    decode marshal unmarshal (e_header e) (p :: atts) tys = Ok (views tys sargs).
+Proof. exact decode_encode_event. Qed.
